@@ -5,6 +5,7 @@ import TmVerif.Model.SetClosure
 Line protocol for C25:
 
   merge|inter ia a ib b            → `inv set`
+  bitset inv set n                 → the `n` bits of `IntSet.BitSet(n)` as a 0/1 string
   closure <ops> <edges> <inits>    → `ok <inv:set;…>` | `error <offending complement nodes, sorted>` | `timeout`
                                      (ops: 0 union / 1 intersection / 2 complement per node, `-` for no node;
                                       edges: rows of successors; inits: the slices given to `Add`)
@@ -100,10 +101,24 @@ def judgeClosure (sys : Sys) (ans : List String) : String :=
               | none => "holds"
     | _ => "violates: panics or malformed answer"
 
+/-- `IntSet.BitSet(size)`: bit `v` (for `v < size`) is set iff `v` is a member -/
+def bitsOf (s : IntSet) (n : Nat) : String :=
+  String.ofList ((List.range n).map fun (v : Nat) => if memB s (Int.ofNat v) then '1' else '0')
+
 /-- ops: `merge ia a ib b`, `inter ia a ib b` → `inv set`;
 `judge inv set :: op ia a ib b` → does the implementation's answer denote the right set? -/
 def handle (args : List String) : Option String :=
   match args with
+  | ["bitset", inv, set, n] => do
+    let inv ← parseBool? inv; let set ← parseInts set; let n ← parseNat? n
+    some (bitsOf ⟨inv, set⟩ n)
+  | ["judge", bits, "::", "bitset", inv, set, n] => do
+    let inv ← parseBool? inv; let set ← parseInts set; let n ← parseNat? n
+    let want := bitsOf ⟨inv, set⟩ n
+    if bits == want then some "holds"
+    else
+      let i := ((want.toList.zip bits.toList).zipIdx.find? (fun p => p.1.1 != p.1.2)).map (·.2)
+      some s!"violates: bit {repr i} of the BitSet differs from membership (size {n}; lengths {bits.length} / {want.length})"
   | [op, ia, a, ib, b] => do
     let ia ← parseBool? ia; let a ← parseInts a
     let ib ← parseBool? ib; let b ← parseInts b
